@@ -15,7 +15,7 @@ CHECKS = {
          "Every return value and the full contents (iter, len, lookups owned and borrowed) are compared with a map model after every step of seeded histories on both kinds. Sampling, not proof.",
          "Trusted: the reference model (BTreeMap), std/indexmap.", "3,4.C03"),
  "C04": ("exploration", HIST + "; leaked iter_mut/drain guards as injected faults; index-table invariant via the cfg-gated snapshot hook; abort classification of worker processes; one run in ten on the std-hasher constructors new() / with_capacity(n)",
-         "No step of any fault-free history may panic or abort; the index tables the unchecked accesses trust are checked after every step; workers run with std's debug precondition checks so an out-of-bounds get_unchecked aborts and is classified; the thorough tier adds a Miri (Tree Borrows) batch of short histories, which is how the IterMut aliasing defect (D9) was found. Sampling, not proof.",
+         "No step of any fault-free history may panic or abort; the index tables the unchecked accesses trust are checked after every step; workers run with std's debug precondition checks so an out-of-bounds get_unchecked aborts and is classified; the thorough tier adds a Miri (Tree Borrows) batch of short histories, which is how the IterMut aliasing defect (D9) was found; both tiers run two fixed Miri scenarios for the recorded known finding (use of an iter_mut reference after the iterator is gone) and print KNOWN-FINDING for it. A run that makes no progress for VERIF_HANG_SECS is reported as a hang. Sampling, not proof.",
          "Trusted: std's ub_checks on get_unchecked (debug-assertions build), the snapshot hook being read-only.", "3,4.C04"),
 
  "C06": ("exploration", HIST + "; scheduler-chosen interleavings of next/next_back on the sorted iterators (episode scheduling)",
